@@ -87,14 +87,14 @@ def _one(sym):
     return Fraction(1, 8) if sym else 1
 
 
-def _start(ctx, env, cls, feats, sym, lite=False):
+def _start(ctx, env, cls, feats, sym, lite=False, pin=None):
     import unified_planning as up
     from unified_planning.model import (DurativeAction, Fluent, InstantaneousAction, Object, Problem, StartTiming, EndTiming,
                                         GlobalStartTiming, MinimizeActionCosts)
 
     em, tm = env.expression_manager, env.type_manager
     h = H()
-    h.env, h.em, h.tm, h.cls, h.sym, h.lite = env, em, tm, cls, sym, lite
+    h.env, h.em, h.tm, h.cls, h.sym, h.lite, h.pin = env, em, tm, cls, sym, lite, (pin or {})
     T = tm.UserType("T")
     h.T = T
     h.o1, h.o2 = Object("o1", T, env), Object("o2", T, env)
@@ -438,7 +438,7 @@ def mk_timed_assign(ctx, h, k):
     from unified_planning.model import GlobalStartTiming
 
     em = h.em
-    f = ctx.choice(f"tafl{k}", 2 if h.sym else 3)  # Boolean assignments never conflict: not in the symbolic shards
+    f = h.pin["fl"] if "fl" in h.pin else ctx.choice(f"tafl{k}", 2 if h.sym else 3)  # Boolean assignments never conflict: not in the symbolic shards
     delay = _delay(ctx, h, f"tadelay{k}")
     val = _val(ctx, h, f"taval{k}", lite_one=(f == 0)) if f < 2 else None
     bv = not ctx.choice(f"tabool{k}", _nv(h, 2, 1)) if f == 2 else None
@@ -459,7 +459,7 @@ def mk_timed_incdec(ctx, h, k):
     from unified_planning.model import GlobalStartTiming
 
     em = h.em
-    f = ctx.choice(f"tifl{k}", 2)
+    f = h.pin["fl"] if "fl" in h.pin else ctx.choice(f"tifl{k}", 2)
     dec = ctx.choice(f"tidec{k}", 2 if (f == 0 or not h.lite) else 1)
     delay = _delay(ctx, h, f"tidelay{k}")
 
@@ -633,7 +633,7 @@ def mk_ma_fluent(ctx, h, k):
         elif v == 1:
             P.agent("A1").add_public_fluent(Fluent("pf2", tm.BoolType(), environment=env, u=tm.UserType("U")), default_initial_value=em.TRUE())
         elif v == 2:
-            P.agent("A2").add_private_fluent(Fluent("qf2", tm.IntType(), environment=env))
+            P.agent("A2").add_private_fluent(Fluent("qf2", tm.BoolType(), environment=env))  # type default applies
         elif v == 3:
             P.agent("A1").add_fluent(Fluent("pub", tm.BoolType(), environment=env))  # clash inside the agent
         else:
@@ -742,23 +742,41 @@ def _run(apply, P):
     return None
 
 
-def _compare(ctx, A, B, cls, stage, symmetric=True):
-    eq1 = (A == B)
-    eq2 = (B == A) if symmetric else eq1
+def _compare(ctx, A, B, cls, stage, symmetric=True, what=None):
+    what = what or stage
+    try:
+        eq1 = (A == B)
+        eq2 = (B == A) if symmetric else eq1
+    except Exception as e:  # noqa: BLE001
+        # == itself raises (MultiAgentProblem.__eq__ needs every initial value).  If each side cannot even be compared with itself,
+        # == is unusable on this (incomplete) problem -- not clone's fault -- and the structural comparison stands in for it.
+        def self_raises(X):
+            try:
+                X == X
+            except Exception:  # noqa: BLE001
+                return True
+            return False
+
+        comps = fp_diff(fingerprint(A, cls), fingerprint(B, cls))
+        if comps or not (self_raises(A) and self_raises(B)):
+            ctx.fail(f"{stage}:eq-raises[{','.join(comps)}]",
+                     f"after {what}: original == clone raises {type(e).__name__}: {e}; differing components: {comps}")
+        ctx.witness("eq-unusable-fingerprints-equal")
+        return
     if not (eq1 and eq2):
         ka, kb = A.kind, B.kind
         if not (ka == kb):
             fa, fb = set(ka.features), set(kb.features)
-            ctx.fail(f"{stage}:kind", f"kinds differ after {stage}: only original {sorted(fa - fb)}, only clone {sorted(fb - fa)}")
+            ctx.fail(f"{stage}:kind", f"kinds differ after {what}: only original {sorted(fa - fb)}, only clone {sorted(fb - fa)}")
         comps = fp_diff(fingerprint(A, cls), fingerprint(B, cls))
         ctx.fail(f"{stage}:neq[{','.join(comps) or 'fingerprints-equal'}]",
-                 f"after {stage}: original == clone is {eq1}, clone == original is {eq2}; differing components: {comps}")
+                 f"after {what}: original == clone is {eq1}, clone == original is {eq2}; differing components: {comps}")
     # == compares the kinds first (Problem.__eq__, MultiAgentProblem.__eq__): equal kinds are implied here
     try:
         ha, hb = hash(A), hash(B)
     except Exception as e:  # noqa: BLE001
         ctx.fail(f"{stage}:hash-raises", f"hash() of an equal pair raises {type(e).__name__}: {e}")
-    ctx.check(ha == hb, f"{stage}:hash", f"after {stage}: equal problems with different hashes")
+    ctx.check(ha == hb, f"{stage}:hash", f"after {what}: equal problems with different hashes")
 
 
 def _history(ctx, h, n_ops, ops, first, first_from=None):
@@ -776,11 +794,11 @@ def _history(ctx, h, n_ops, ops, first, first_from=None):
     return out
 
 
-def h_both(ctx, cls, feats, n_ops, ops=None, first=None, sym=False, lite=False, first_from=None):
+def h_both(ctx, cls, feats, n_ops, ops=None, first=None, sym=False, lite=False, first_from=None, pin=None):
     """every operation is applied to the original and to the clone"""
     env = ctx.fresh_env(hashcons="syntactic")
     with ctx.untraced():
-        h = _start(ctx, env, cls, feats, sym, lite)
+        h = _start(ctx, env, cls, feats, sym, lite, pin)
     A = h.P
     B = A.clone()
     ctx.check(B is not A, "clone:same-object", "clone returned the receiver")
@@ -790,9 +808,10 @@ def h_both(ctx, cls, feats, n_ops, ops=None, first=None, sym=False, lite=False, 
     ctx.witness("cloned")
     hist = _history(ctx, h, n_ops, ops, first, first_from)
     for k, (label, apply) in enumerate(hist):
+        kind = label.rstrip("0123456789")  # signatures name the operation kind; the variant is in the message and in the replay file
         ra, rb = _run(apply, A), _run(apply, B)
         if ra != rb:
-            ctx.fail(f"{label}:raise-diff[orig={ra},clone={rb}]",
+            ctx.fail(f"{kind}:raise-diff[orig={ra},clone={rb}]",
                      f"operation {k} ({label}) on the original: {ra or 'accepted'}; on the clone: {rb or 'accepted'}")
         last = k == len(hist) - 1
         if sym and not last:
@@ -800,33 +819,34 @@ def h_both(ctx, cls, feats, n_ops, ops=None, first=None, sym=False, lite=False, 
             # harness' own structural comparison
             comps = fp_diff(fingerprint(A, cls), fingerprint(B, cls))
             if comps:
-                ctx.fail(f"{label}:neq[{','.join(comps)}]", f"after {label}: original and clone differ in {comps}")
+                ctx.fail(f"{kind}:neq[{','.join(comps)}]", f"after {label}: original and clone differ in {comps}")
         else:
-            _compare(ctx, A, B, cls, label, symmetric=last and not sym)
+            _compare(ctx, A, B, cls, kind, symmetric=last and not sym, what=label)
         ctx.witness("both-accepted" if ra is None else "both-rejected")
 
 
-def h_one(ctx, cls, feats, n_ops, ops=None, first=None, sym=False, lite=False, first_from=None):
+def h_one(ctx, cls, feats, n_ops, ops=None, first=None, sym=False, lite=False, first_from=None, side=None, pin=None):
     """the operations are applied to one side only; the other side must not change"""
     env = ctx.fresh_env(hashcons="syntactic")
     with ctx.untraced():
-        h = _start(ctx, env, cls, feats, sym, lite)
+        h = _start(ctx, env, cls, feats, sym, lite, pin)
     A = h.P
     B = A.clone()
-    edited, other = (A, B) if ctx.choice("edit_clone", 2) == 0 else (B, A)
+    edited, other = (A, B) if (ctx.choice("edit_clone", 2) if side is None else side) == 0 else (B, A)
     who = "clone" if other is B else "original"
     fp0 = fingerprint(other, cls)
     snap = other.clone()
     # symbolic engine: fingerprint only (the library's == recomputes both kinds under the tracer on every call)
     snap_ok = (not sym) and (snap == other)  # clone defects are the both-mode's subject; the ==-snapshot is used only where it starts equal
     for k, (label, apply) in enumerate(_history(ctx, h, n_ops, ops, first, first_from)):
+        kind = label.rstrip("0123456789")
         r = _run(apply, edited)
         comps = fp_diff(fp0, fingerprint(other, cls))
         if comps:
-            ctx.fail(f"{label}:indep-{who}[{','.join(comps)}]",
+            ctx.fail(f"{kind}:indep-{who}[{','.join(comps)}]",
                      f"operation {k} ({label}, {'rejected: ' + r if r else 'accepted'}) on the other side changed the {who}: {comps}")
         if snap_ok:
-            ctx.check(other == snap and snap == other, f"{label}:indep-{who}-eq",
+            ctx.check(other == snap and snap == other, f"{kind}:indep-{who}-eq",
                       f"operation {k} ({label}) on the other side: the {who} is no longer == to the clone of it taken before")
         ctx.witness("untouched-after-accepted" if r is None else "untouched-after-rejected")
 
@@ -864,7 +884,7 @@ def shards(tier, seed):
         return [("h1", names[:k]), ("h2", names[k:])]
 
     quick = tier == "quick"
-    bud = 100 if quick else 900
+    bud = 240 if quick else 900  # wall-clock cap of the direct engine (the machine is shared); CPU per quick shard stays <= ~60 s
     # (1) single operations, full operand sets, every optional construct present before cloning one at a time for the classes whose
     #     clone() loses some of them (their defects stay confined to their own shards)
     add("problem", FULL, "both", 1, budget=bud)
@@ -881,10 +901,12 @@ def shards(tier, seed):
         for tag, first_ops in halves("problem"):
             add("problem", FULL, "both", 2, lite=True, tag=tag, ops=None, first=None, budget=bud)
             out[-1]["kwargs"]["first_from"] = first_ops
-        add("problem", FULL, "one", 2, lite=True, budget=bud)
-        for cls in ("contingent", "hierarchical"):
-            add(cls, [], "both", 2, lite=True, budget=bud)
-            add(cls, [], "one", 2, lite=True, budget=bud)
+        for cls, feats in (("problem", FULL), ("contingent", []), ("hierarchical", [])):
+            if cls != "problem":
+                add(cls, feats, "both", 2, lite=True, budget=bud)
+            for side in (0, 1):
+                add(cls, feats, "one", 2, lite=True, tag=("edit-clone" if side else "edit-orig"), budget=bud)
+                out[-1]["kwargs"]["side"] = side
         add("ma", [], "both", 2, budget=bud)
         add("ma", [], "one", 2, budget=bud)
     else:
@@ -900,7 +922,8 @@ def shards(tier, seed):
         add("ma", [], "one", 3, budget=bud)
     # (3) symbolic timings / values (delay (2k+1)/8 and assigned values are solver variables)
     add("problem", ["tinc", "tassign"], "both", 1, sym=True, ops=TIMED, budget=bud)
-    add("problem", [], "both", 2, sym=True, ops=["timed_assign", "timed_incdec"], budget=bud)
+    add("problem", [], "both", 2, sym=True, ops=["timed_assign", "timed_incdec"], tag="m", budget=bud)
+    out[-1]["kwargs"]["pin"] = {"fl": 1}  # both operations on the real fluent m
     add("problem", ["tinc", "tassign"], "one", 1, sym=True, ops=TIMED, budget=bud)
     if not quick:
         for cls in ("contingent", "hierarchical"):
